@@ -78,6 +78,8 @@ mod values;
 mod verif_hooks;
 #[cfg(wilfred_garden_verif)]
 mod verif_machine;
+#[cfg(wilfred_garden_verif)]
+mod verif_runner;
 mod version;
 mod wrap_in_dbg;
 
